@@ -86,6 +86,9 @@ Local Open Scope string_scope.
 Definition HELPER : pystr := s2p "deepdiff.helper".
 Definition OPCODE : pystr := s2p "Opcode".
 Definition SETORDERED : pystr := s2p "SetOrdered".
+Definition BUILTINS_ : pystr := s2p "builtins".
+Definition SET_ : pystr := s2p "set".
+Definition FROZENSET_ : pystr := s2p "frozenset".
 Local Close Scope string_scope.
 
 Fixpoint enc (v : pv) {struct v} : list op :=
@@ -178,6 +181,22 @@ Fixpoint decode (o : obj) {struct o} : option pv :=
         match args, sts with
         | [], [OList _ xs] => option_map PSetOrdered (decs xs)
         | _, _ => None
+        end
+      else None
+  | OInst _ KReduce (OGlobal m n GType) (OTuple args) [] =>
+      (* how protocols < 4 write sets: builtins.set([...]) / builtins.frozenset([...]) *)
+      if pystr_eqb m BUILTINS_ then
+        match args with
+        | [] => if pystr_eqb n SET_ then Some (PSet []) else if pystr_eqb n FROZENSET_ then Some (PFrozen []) else None
+        | [OList _ xs] =>
+            match all_some (map atom_of_obj xs) with
+            | Some ats =>
+                if negb (nodup_atoms ats) then None           (* the pickler never writes duplicates *)
+                else if pystr_eqb n SET_ then Some (PSet ats)
+                else if pystr_eqb n FROZENSET_ then Some (PFrozen ats) else None
+            | None => None
+            end
+        | _ => None
         end
       else None
   | _ => None
